@@ -239,6 +239,8 @@ pub fn classify_features(ctx: &mut ShardCtx, f: &Features) {
     c("has long string", f.long_strings);
     c("returns a plain variable", f.returns_of_variable);
     c("has unused declaration", f.unused_decls);
+    c("has read-then-clobber expression", f.clobber_patterns);
+    c("has ill-typed dynamic use in an unused declaration", f.illtyped_dead);
 }
 
 /// Pre-flight shared by all reference-based checks: generator self-consistency.
